@@ -467,11 +467,11 @@ def serialise(containers, lastInOrder=None, selectOrder=None) -> str:
             o = c.getObj(nm)
             cats.append([nm, list(o.getAttributeList()), [list(r) for r in o.getRowList()]])
         doc.append([c.getName(), cats])
-    return MAGIC + json.dumps(doc, default=lambda o: f"<{type(o).__name__}>")
+    return MAGIC + json.dumps(doc, default=lambda o: f"<{type(o).__name__}>") + "\n"
 
 
 def text_of(doc) -> str:
-    return MAGIC + json.dumps(doc)
+    return MAGIC + json.dumps(doc) + "\n"  # like a real file the text ends with a newline: stripping it is a change
 
 
 def parse(text) -> Optional[list]:
@@ -752,6 +752,26 @@ _XB: Dict[str, Any] = {
 _XB.update({n: getattr(builtins, n) for n in dir(builtins) if isinstance(getattr(builtins, n), type) and issubclass(getattr(builtins, n), BaseException)})
 _XB.update({n: getattr(builtins, n) for n in ("list", "dict", "tuple", "set", "frozenset", "str", "int", "float", "bool", "bytes", "object")})
 _PLAIN = (str, list, dict, set, tuple, frozenset, bytes, int, float)
+_LAZY = ("zip", "range", "reversed", "enumerate", "filter", "map")  # lazy in the language: evaluated by the real builtin (keywords included), result materialised
+
+
+def _real_builtin(name: str) -> Callable:
+    real = getattr(builtins, name)
+    if name == "iter":
+        return lambda *a: iter(*a)
+    if name == "next":
+        def nxt(it, *default):
+            if isinstance(it, list):  # a materialised lazy object (zip / map / filter / ...) asked for its first element
+                if it:
+                    return it[0]
+                if default:
+                    return default[0]
+                raise StopIteration
+            return next(it, *default)
+
+        return nxt
+    return lambda *a, **k: list(real(*a, **k))
+
 
 
 class XFolder(Folder):
@@ -807,6 +827,8 @@ class XFolder(Folder):
                 fn = self.local[f.id]
                 if not callable(fn):
                     raise TypeError(f"'{type(fn).__name__}' object is not callable")
+            elif f.id in ("next", "iter") or (f.id in _BUILTINS and f.id in _LAZY):
+                fn = _real_builtin(f.id)
             elif f.id in _BUILTINS:
                 fn = _BUILTINS[f.id]
             elif _XB.get(f.id) is not None:
@@ -1498,7 +1520,8 @@ def check_replace(chk, fi) -> Optional[str]:
     try:
         rt = Runtime(repo, tree, World())
         b = rt.bind(rt.funcs[fi.qualname], ["t"], {}, rt.module_env)
-        vals = [v for k, v in b.items() if k == "values"]
+        params = [x.arg for x in rt.funcs[fi.qualname].args.args]
+        vals = [b[params[3]]] if len(params) > 3 and params[3] in b else []
         if vals:
             v = vals[0]
             ok = isinstance(v, str) and len(set(v)) == len(v) and len(v) > 0 and not any(ch.isspace() for ch in v)
@@ -1583,7 +1606,8 @@ def _judge_total(o: Outcome, doc, cat, col, old: List[str]) -> Optional[str]:
 def _tag(name: str, fn: ast.FunctionDef, b: Dict[str, Any]) -> Tuple[Dict[str, Any], str]:
     order = [a.arg for a in fn.args.posonlyargs + fn.args.args + fn.args.kwonlyargs]
     b = {k: b[k] for k in order if k in b}
-    return b, f"<{name}(" + ", ".join(f"{k}={b[k]!r}" for k in b) + ")>"
+    # leading / trailing white space is part of what the library returns: the tool must write it as it is
+    return b, f" <{name}(" + ", ".join(f"{k}={b[k]!r}" for k in b) + ")>\n\n"
 
 
 def _lib_stub(world: World, rt_holder: list, name: str, fn: ast.FunctionDef, tuple_result: bool):
